@@ -141,6 +141,7 @@ func (pi *PathIterator[_]) ReplacePart(newPath string) bool {
 
 // Reset resets the iterator.
 func (pi *PathIterator[_]) Reset() {
+	pi.start = 0
 	pi.end = pi.volumeNameLen
 }
 
